@@ -421,6 +421,8 @@ class Result:
             traces_validated_against_impl=self.traces,
             correspondence_ok=self.corr_ok, proof_ok=self.proof_ok,
         )
+        if self.proof.get("coqchk"):
+            cov["coqchk"] = self.proof["coqchk"]
         if n_dis == 0:
             # nothing was discharged on this run: do not present proof-level counts
             cov["obligations_total"] = cov.pop("obligations")
@@ -471,6 +473,16 @@ def step_A(res, need_files=()):
         res.proof_ok = False
         res.proof_notes.append("the theorems of %s no longer check (files that failed to build: %s):\n%s\n%s" %
                                (res.prop_id, failed, a["log"][-2000:], "" if okc else outc[-3000:]))
+    if res.tier == "thorough" and res.proof_ok and res.prop_id not in ("C05", "C08"):
+        # independent re-check of the compiled theorems and everything they depend on (coqchk); the two properties with
+        # Flocq/Interval dependencies are left out: coqchk does not get through those libraries in two hours
+        rc, outk = sh(["coqchk", "-silent", "-o", "-Q", os.path.join(COQ, "theories"), "NTRIP", "-Q", os.path.join(COQ, "gen"), "NTRIPGen",
+                       "NTRIP.P_%s" % res.prop_id], cwd=COQ, timeout=3600)
+        clean = all(k in outk for k in ("* Axioms: <none>", "type-in-type: <none>", "unsafe (co)fixpoints: <none>", "positivity is assumed: <none>"))
+        res.proof["coqchk"] = "ok: no axioms, no type-in-type, no unsafe fixpoints, no assumed positivity" if (rc == 0 and clean) else outk[-1500:]
+        if rc != 0 or not clean:
+            res.proof_ok = False
+            res.proof_notes.append("coqchk did not accept NTRIP.P_%s:\n%s" % (res.prop_id, outk[-2000:]))
     okm, outm = build_model()
     if not okm:
         res.corr_ok = False
